@@ -75,6 +75,11 @@ def roots_of(flow: Flow, expr: ast.AST, depth: int = 10, _seen: Optional[set] = 
         return roots_of(flow, expr.value, depth, _seen)
     if isinstance(expr, ast.Call):
         f = expr.func
+        if isinstance(f, ast.Attribute) and _is_module_function(flow, f):
+            out = set()
+            for a in expr.args:
+                out |= roots_of(flow, a, depth - 1, _seen)
+            return (out | {'fresh'}) if out else {'fresh'}
         if isinstance(f, ast.Attribute):
             if f.attr in FRESH_METHODS:
                 return {'fresh'}
@@ -106,6 +111,17 @@ def roots_of(flow: Flow, expr: ast.AST, depth: int = 10, _seen: Optional[set] = 
     if isinstance(expr, ast.IfExp):
         return roots_of(flow, expr.body, depth - 1, _seen) | roots_of(flow, expr.orelse, depth - 1, _seen)
     return {'unknown'}
+
+
+def _is_module_function(flow: Flow, f: ast.Attribute) -> bool:
+    """`utils.name_to_data_array(...)`: the receiver chain is rooted in a module level name."""
+    node = f.value
+    while isinstance(node, ast.Attribute):
+        node = node.value
+    if isinstance(node, ast.Name):
+        ds = flow.defs_of(node)
+        return not ds or all(d.kind == 'import' for d in ds)
+    return False
 
 
 def writes_in(fi: FuncInfo, flow: Flow) -> Iterator[tuple[ast.AST, ast.AST, str]]:
